@@ -145,6 +145,8 @@ def gen_history(rng, length, readonly_safe=False, valkeys=None, funcs=3):
             block.append([rng.choice(["wmeta", "wmetad"]), f, a, mk, "w%d" % i])
             if rng.random() < 0.7:
                 block.append(["rmeta", f, a, mk])
+        if rng.random() < 0.4:  # the call gets another result: what was stored next to the old one is gone, the rest stays
+            block += [["rmeta", f, a, mk], ["memoize", f, a, rng.choice(["s0", "k3", "num"]), None]]
         block += [["rmeta", f, a, mk], ["forget_call", f, a], ["rmeta", f, a, mk]]
         at = rng.randrange(len(ops) + 1)
         ops[at:at] = block
@@ -172,7 +174,12 @@ class Model:
         if k == "memoize":
             _, f, a, vk, ovr = op
             old = self.d.get((f, a))
-            self.d[(f, a)] = {"v": vk, "meta": dict(old["meta"]) if old else {}, "ovr": ovr}
+            # (metadata stored next to the data object belongs to that object: once the call has a new result it is gone
+            # on the filesystem - while the in-heap backend, which has no objects to put it next to, keeps it; both are
+            # accepted, raising is not)
+            undecided = set(old.get("undecided", ())) | set(old.get("withdata", ())) if old else set()
+            self.d[(f, a)] = {"v": vk, "meta": dict(old["meta"]) if old else {}, "ovr": ovr, "withdata": set(),
+                              "undecided": undecided}
             return None
         if k in ("read", "readheld"):
             e = self.d.get((op[1], op[2]))
@@ -208,9 +215,13 @@ class Model:
             if e is None:
                 return "skipped"  # public contract: metadata is written for existing mementos only
             e["meta"][mk] = mv
+            (e.setdefault("withdata", set()).add if k == "wmetad" else e.setdefault("withdata", set()).discard)(mk)
+            e.setdefault("undecided", set()).discard(mk)
             return None
         if k == "rmeta":
             e = self.d.get((op[1], op[2]))
+            if e and op[3] in e.get("undecided", ()):
+                return ["either", None, e["meta"].get(op[3])]
             return e["meta"].get(op[3]) if e else None
         raise ValueError(k)
 
@@ -369,6 +380,8 @@ def answers_agree(op, expected, got, refs, vals):
         limit, live = expected
         live = {refs.ah[op[1]][a] for a in live}
         return isinstance(got, list) and len(got) == min(limit, len(live)) and len(set(got)) == len(got) and set(got) <= live
+    if isinstance(expected, list) and expected and expected[0] == "either":
+        return got in expected[1:]
     return expected == got
 
 
